@@ -1,9 +1,19 @@
 import OrsoVerif.Model.Cursor
+import OrsoVerif.Lemmas.Cursor
+import OrsoVerif.Generated.CursorFns
 /-!
 # C04 — Cursor fetches deliver every row exactly once, in order
 
 Property theorems only.  The statements quantify over every frame, every element
 type and every finite history of operations.
+
+Part 1 states the contract on the spec machine (`Cursor.step`: a position into the rows).
+Part 2 (`gen_*`) proves what the contract needs of the definitions regenerated from
+`orso/dataframe.py` and `orso/converters.py` on every run (`Gen.Cursor.*`).
+Part 3 proves that the code machine (`Cursor.Impl.step`: iterators, the `fetchmany` loop,
+`list(cursor)`, built from the generated definitions) refines the spec machine for every
+history on a materialised frame and for every cursor-only history on a lazily backed frame
+(a list of chunks, some of them empty), and transfers the contract.
 -/
 namespace C04
 open Cursor
@@ -64,7 +74,7 @@ theorem step_inv (rows₀ : List α) (s : State α) (acc : List α) (op : Op α)
       · intro _; exact hr
     · simp [hv, Inv, fetched, hacc, hpos]
   | setArraysize n => simp [step, Inv, fetched, hacc, hpos]; exact hrows
-  | observe => simp [step, Inv, fetched, hacc, hpos]; exact hrows
+  | observe k => simp [step, Inv, fetched, hacc, hpos]; exact hrows
   | append r => simp [step, Inv, fetched, hacc, hpos]
 
 theorem run_inv (rows₀ : List α) (ops : List (Op α)) (s : State α) (acc : List α)
@@ -113,8 +123,8 @@ theorem fetchall_rest (s : State α) (hv : s.valid = true) (hp : s.pos ≤ s.row
   simp [step, hv]; omega
 
 /-- Read-only observers and arraysize changes never move the cursor or change the rows. -/
-theorem observe_noop (s : State α) (n : Nat) :
-    step s .observe = (s, .unit) ∧
+theorem observe_noop (s : State α) (n : Nat) (kind : Obs) :
+    step s (.observe kind) = (s, .unit) ∧
     (step s (.setArraysize n)).1.pos = s.pos ∧ (step s (.setArraysize n)).1.rows = s.rows ∧
     (step s (.setArraysize n)).1.valid = s.valid := by
   simp [step]
@@ -140,9 +150,235 @@ theorem after_append_refuses (s : State α) (r : α) (ops : List (Op α)) :
       · exact ih _ hst o ho
   exact key ops _ (by simp [step])
 
+/-- **Exhaustion is permanent.**  Once `fetchone` has answered `None`, no later call of any
+history delivers a row (the fetches answer `None` / `[]`, or refuse after an append). -/
+theorem none_is_final (s : State α) (h : (step s .fetchone).2 = .one none) (ops : List (Op α)) :
+    (step s .fetchone).1 = s ∧ ∀ o ∈ (run (step s .fetchone).1 ops).2, fetched o = [] := by
+  by_cases hv : s.valid = true
+  · cases hg : s.rows[s.pos]? with
+    | some r => simp [step, hv, hg] at h
+    | none =>
+      have hS : step s .fetchone = (s, .one none) := by simp [step, hv, hg]
+      rw [hS]
+      exact ⟨rfl, spent_run ops s (Or.inr (List.getElem?_eq_none_iff.mp hg))⟩
+  · simp [step, hv] at h
+
+/-- …and the same after a `fetchall`, and after a `fetchmany` that came back short. -/
+theorem short_is_final (s : State α) (hv : s.valid = true) (k : Option Nat) (ops : List (Op α)) :
+    (∀ o ∈ (run (step s .fetchall).1 ops).2, fetched o = []) ∧
+    ((fetched (step s (.fetchmany k)).2).length < k.getD s.arraysize →
+      ∀ o ∈ (run (step s (.fetchmany k)).1 ops).2, fetched o = []) := by
+  constructor
+  · apply spent_run
+    right
+    simp only [step, hv, if_true, List.length_drop]
+    omega
+  · intro h
+    apply spent_run
+    right
+    simp only [step, hv, if_true, fetched, List.length_take, List.length_drop] at h ⊢
+    omega
+
+/-! ## Part 2 — what the source says now -/
+
+/-- `fetchmany`: the loop runs `k` times, `arraysize` times when `k` is omitted
+(`fetch_size = self.arraysize if size is None else size`, `range(fetch_size)`); an explicit `0` is `0`. -/
+theorem gen_fetch_size (a : Nat) (k : Option Nat) : fetchCount a k = k.getD a := by
+  cases k <;> simp [fetchCount, Gen.Cursor.loopBound, Gen.Cursor.fetchSize]
+
+/-- The three fetch methods refuse exactly when the cursor is `None`. -/
+theorem gen_guards (b : Bool) :
+    Gen.Cursor.fetchoneRefuses b = b ∧ Gen.Cursor.fetchmanyRefuses b = b ∧ Gen.Cursor.fetchallRefuses b = b := by
+  cases b <;> decide
+
+/-- `__init__` always creates an iterator — also for a frame of no rows (`None` is the mark `append` leaves). -/
+theorem gen_init_live (b : Bool) : Gen.Cursor.initCursorLive b = true := by
+  cases b <;> decide
+
+/-- Every completing `append` reaches `self._cursor = None`: whatever the kind of schema, and whether or
+not the running byte total is being kept. -/
+theorem gen_append_invalidates (schemaRel nbytesTracked : Bool) :
+    Gen.Cursor.appendInvalidates schemaRel nbytesTracked = true := by
+  cases schemaRel <;> cases nbytesTracked <;> decide
+
+/-- `_RowsIterator.__next__`: stops at `max_size` rows exactly, counts one per row, and keeps loading
+tables while the loaded one has no rows. -/
+theorem gen_rows_iterator :
+    Gen.Cursor.skipsEmptyTables = true ∧
+    (∀ p m : Nat, Gen.Cursor.limitReached (p : Int) (m : Int) ↔ m ≤ p) ∧
+    (∀ p : Nat, (Gen.Cursor.processedAfter (p : Int)).toNat = p + 1) := by
+  refine ⟨by decide, ?_, ?_⟩
+  · intro p m; unfold Gen.Cursor.limitReached; omega
+  · intro p; unfold Gen.Cursor.processedAfter; omega
+
+theorem gen_facts : GenFacts :=
+  { size := gen_fetch_size
+    guardOne := fun b => (gen_guards b).1
+    guardMany := fun b => (gen_guards b).2.1
+    guardAll := fun b => (gen_guards b).2.2
+    initLive := gen_init_live
+    appendInv := gen_append_invalidates
+    skips := gen_rows_iterator.1
+    limit := gen_rows_iterator.2.1
+    bump := gen_rows_iterator.2.2 }
+
+/-! ### the fetch methods translated statement by statement (`Gen.CursorFns`, harness/pystmt.py)
+
+`Gen.CursorFns.fetchone/fetchmany/fetchall` are the bodies of the three methods as the working tree has
+them now, in state-passing style (`none` = the method raised).  Each is proved equal to what the
+contract says of it over the iterator model; `code_machine_is_generated` then shows that the fetch steps
+of the code machine *are* these functions. -/
+
+/-- `fetchone`: refuses iff the cursor is `None`; otherwise one `next`, `StopIteration` answered by `None`. -/
+theorem generated_fetchone_eq_model (live : Bool) (b : Backing α) :
+    Gen.CursorFns.fetchone Backing.next (!live) b = if live then some b.next else none := by
+  unfold Gen.CursorFns.fetchone
+  rcases hb : b.next with ⟨_ | r, b'⟩ <;> cases live <;> simp
+
+/-- `fetchmany(k)`: refuses iff the cursor is `None`; otherwise `k` turns of `next` (`arraysize` turns when
+`k` is omitted, none for `k = 0`), stopping at the first `StopIteration`, rows in the order delivered. -/
+theorem generated_fetchmany_eq_model (live : Bool) (a : Nat) (k : Option Nat) (b : Backing α) :
+    Gen.CursorFns.fetchmany Backing.next (!live) (a : Int) (k.map Int.ofNat) b =
+      if live then some (pull (k.getD a) b) else none := by
+  unfold Gen.CursorFns.fetchmany
+  cases live
+  · simp
+  · simp only [Bool.not_true, Bool.false_eq_true, if_false, if_true]
+    rw [forRange_pull]
+    · cases k <;> simp
+    · intro acc b r b' h; simp [h]
+    · intro acc b b' h; simp [h]
+
+/-- `fetchall`: refuses iff the cursor is `None`; otherwise `list(cursor)`. -/
+theorem generated_fetchall_eq_model (drain : Backing α → List α × Backing α) (live : Bool) (b : Backing α) :
+    Gen.CursorFns.fetchall drain (!live) b = if live then some (drain b) else none := by
+  unfold Gen.CursorFns.fetchall
+  cases live <;> simp
+
+/-- **The fetch steps of the code machine are the generated functions.** -/
+theorem code_machine_is_generated (f : Frame α) (k : Option Nat) :
+    Impl.step f .fetchone =
+      (match Gen.CursorFns.fetchone Backing.next (!f.live) f.backing with
+        | some (r, b) => ({ f with backing := b }, .one r) | none => (f, .err)) ∧
+    Impl.step f (.fetchmany k) =
+      (match Gen.CursorFns.fetchmany Backing.next (!f.live) (f.arraysize : Int) (k.map Int.ofNat) f.backing with
+        | some (rs, b) => ({ f with backing := b }, .many rs) | none => (f, .err)) ∧
+    Impl.step f .fetchall =
+      (match Gen.CursorFns.fetchall (fun b => pull b.fuel b) (!f.live) f.backing with
+        | some (rs, b) => ({ f with backing := b }, .many rs) | none => (f, .err)) := by
+  rw [generated_fetchone_eq_model, generated_fetchmany_eq_model, generated_fetchall_eq_model]
+  simp only [Impl.step, (gen_guards _).1, (gen_guards _).2.1, (gen_guards _).2.2, gen_fetch_size]
+  cases f.live <;> simp
+
+/-! ## Part 3 — the code machine -/
+
+/-- **The lazy source delivers its rows one by one, in order, and its end is permanent.**  For every
+list of tables (empty ones anywhere), every `max_size` and every state reached: `__next__` returns the
+first of the rows still to come (`StopIteration` iff there is none) and leaves the others to come. -/
+theorem rows_iterator_next (c : Chunks α) (tables : List (List α)) (m : Option Nat) :
+    (c.next).1 = c.rows.head? ∧ (c.next).2.rows = c.rows.tail ∧
+    (Chunks.ofTables tables m : Chunks α).rows = chunkRows tables m := by
+  refine ⟨(Chunks.next_spec gen_facts c).1, (Chunks.next_spec gen_facts c).2, ?_⟩
+  cases m <;> simp [Chunks.ofTables, Chunks.rows, chunkRows]
+
+/-- `list(cursor)`: the fuel the model gives the loop is enough — it returns everything that is left,
+leaves nothing, and any larger fuel returns the same rows. -/
+theorem fetchall_fuel_enough (b : Backing α) (j : Nat) :
+    (pull b.fuel b).1 = b.rest ∧ (pull b.fuel b).2.rest = [] ∧ (pull (b.fuel + j) b).1 = (pull b.fuel b).1 :=
+  ⟨(pull_fuel gen_facts b).1, (pull_fuel gen_facts b).2, pull_more_fuel gen_facts b j⟩
+
+theorem sim_init_eager (d : Nat) (rows : List α) (dicts rel : Bool) :
+    Sim (Impl.initEager d rows dicts rel) (init d rows) := by
+  simp [Sim, Impl.initEager, init, gen_init_live, Backing.rest, storeOk]
+
+theorem sim_init_lazy (d : Nat) (tables : List (List α)) (m : Option Nat) (rel : Bool) :
+    Sim (Impl.initLazy d tables m rel) (init d (chunkRows tables m)) := by
+  have h := (rows_iterator_next (Chunks.ofTables tables m) tables m).2.2
+  simp [Sim, Impl.initLazy, init, gen_init_live, Backing.rest, storeOk, h]
+
+/-- **Materialised frames: the code machine refines the spec machine.**  For every list of rows, both
+ways of construction, both kinds of schema and *every* history (fetches, arraysize changes, observers
+of every kind, appends) the outputs are those of the spec machine. -/
+theorem eager_refines_spec (d : Nat) (rows : List α) (dicts rel : Bool) (ops : List (Op α)) :
+    (Impl.run (Impl.initEager d rows dicts rel) ops).2 = (run (init d rows) ops).2 :=
+  (run_sim gen_facts ops _ _ (sim_init_eager d rows dicts rel) (Or.inl (by simp [Impl.initEager, Backing.store]))).1
+
+/-- **Lazily backed frames obey the same contract.**  For every list of tables (empty ones at the
+start, in the middle, at the end), every `max_size`, and every history that reads the frame only through
+the cursor, the outputs are those of the spec machine over the concatenated rows. -/
+theorem lazy_refines_spec (d : Nat) (tables : List (List α)) (m : Option Nat) (rel : Bool) (ops : List (Op α))
+    (hops : ∀ op ∈ ops, LazyOk op = true) :
+    (Impl.run (Impl.initLazy d tables m rel) ops).2 = (run (init d (chunkRows tables m)) ops).2 :=
+  (run_sim gen_facts ops _ _ (sim_init_lazy d tables m rel) (Or.inr hops)).1
+
+/-- The contract on the code machine, materialised frames: what the fetch calls of any history returned,
+concatenated, is a prefix of the rows. -/
+theorem eager_delivers_prefix (d : Nat) (rows : List α) (dicts rel : Bool) (ops : List (Op α)) :
+    ∃ n, n ≤ rows.length ∧ delivered (Impl.run (Impl.initEager d rows dicts rel) ops).2 = rows.take n := by
+  rw [eager_refines_spec]
+  exact ⟨_, (fetched_is_prefix d rows ops).2, (fetched_is_prefix d rows ops).1⟩
+
+/-- …and lazily backed frames read through the cursor: a prefix of the concatenated tables. -/
+theorem lazy_delivers_prefix (d : Nat) (tables : List (List α)) (m : Option Nat) (rel : Bool) (ops : List (Op α))
+    (hops : ∀ op ∈ ops, LazyOk op = true) :
+    ∃ n, n ≤ (chunkRows tables m).length ∧
+      delivered (Impl.run (Impl.initLazy d tables m rel) ops).2 = (chunkRows tables m).take n := by
+  rw [lazy_refines_spec d tables m rel ops hops]
+  exact ⟨_, (fetched_is_prefix d _ ops).2, (fetched_is_prefix d _ ops).1⟩
+
+/-- **Exhaustion of a lazily backed frame is permanent.**  After any cursor-only history `pre`, if
+`fetchone` answers `None` then no call of any later cursor-only history `post` delivers a row. -/
+theorem lazy_exhaustion_permanent (d : Nat) (tables : List (List α)) (m : Option Nat) (rel : Bool)
+    (pre post : List (Op α)) (hpre : ∀ op ∈ pre, LazyOk op = true) (hpost : ∀ op ∈ post, LazyOk op = true)
+    (hnone : (Impl.step (Impl.run (Impl.initLazy d tables m rel) pre).1 .fetchone).2 = .one none) :
+    ∀ o ∈ (Impl.run (Impl.step (Impl.run (Impl.initLazy d tables m rel) pre).1 .fetchone).1 post).2,
+      fetched o = [] := by
+  have h1 := run_sim gen_facts pre _ _ (sim_init_lazy d tables m rel) (Or.inr hpre)
+  have h2 := step_sim gen_facts _ _ .fetchone h1.2 (Or.inr rfl)
+  have h3 := run_sim gen_facts post _ _ h2.2 (Or.inr hpost)
+  rw [h3.1]
+  rw [h2.1] at hnone
+  exact (none_is_final _ hnone post).2
+
+/-- The same for a materialised frame, whatever the later history contains (observers, appends). -/
+theorem eager_exhaustion_permanent (d : Nat) (rows : List α) (dicts rel : Bool) (pre post : List (Op α))
+    (hnone : (Impl.step (Impl.run (Impl.initEager d rows dicts rel) pre).1 .fetchone).2 = .one none) :
+    ∀ o ∈ (Impl.run (Impl.step (Impl.run (Impl.initEager d rows dicts rel) pre).1 .fetchone).1 post).2,
+      fetched o = [] := by
+  have hE : ∀ ops, ((Impl.run (Impl.initEager d rows dicts rel) ops).1).backing.store.isSome = true := by
+    intro ops
+    generalize hf : Impl.initEager d rows dicts rel = f
+    have h0 : f.backing.store.isSome = true := by rw [← hf]; simp [Impl.initEager, Backing.store]
+    clear hf
+    induction ops generalizing f with
+    | nil => simpa [Impl.run] using h0
+    | cons op ops ih => simpa [Impl.run] using ih _ (allowed_step f op h0 gen_facts)
+  have h1 := run_sim gen_facts pre _ _ (sim_init_eager d rows dicts rel) (Or.inl (by simp [Impl.initEager, Backing.store]))
+  have h2 := step_sim gen_facts _ _ .fetchone h1.2 (Or.inl (hE pre))
+  have h3 := run_sim gen_facts post _ _ h2.2 (Or.inl (allowed_step _ _ (hE pre) gen_facts))
+  rw [h3.1]
+  rw [h2.1] at hnone
+  exact (none_is_final _ hnone post).2
+
 /-- Non-vacuity: a concrete history over a 3-row frame exercising every operation. -/
 example :
-    let r := run (init 2 [10, 20, 30]) [.fetchone, .observe, .fetchmany none, .fetchmany (some 5), .fetchone, .append 40, .fetchall]
+    let r := run (init 2 [10, 20, 30]) [.fetchone, .observe .rows, .fetchmany none, .fetchmany (some 5), .fetchone, .append 40, .fetchall]
     delivered r.2 = [10, 20, 30] ∧ r.1.pos = 3 ∧ r.1.valid = false := by decide
+
+/-- Non-vacuity of the lazy clause: tables of 2, 0 and 3 rows (an empty one in the middle), an empty one
+first and last; `fetchall` crosses the empty table, the end is final. -/
+example :
+    let r := Impl.run (Impl.initLazy 2 [[], [10, 20], [], [30, 40, 50], []] none true)
+      [.fetchone, .fetchmany none, .observe .pure, .fetchall, .fetchone, .fetchmany (some 3), .fetchall]
+    r.2 = [.one (some 10), .many [20, 30], .unit, .many [40, 50], .one none, .many [], .many []] := by decide
+
+/-- …and with `max_size = 3` the frame has three rows. -/
+example :
+    (Impl.run (Impl.initLazy 2 [[10, 20], [], [30, 40, 50]] (some 3) true) [.fetchmany (some 5), .fetchone]).2
+      = [.many [10, 20, 30], .one none] := by decide
+
+/-- Why the lazy clause says "read only through the cursor": a row-level observer on a lazily backed
+frame is outside the model (`Out.outside`), the machine claims nothing about it. -/
+example : (Impl.step (Impl.initLazy 2 [[10]] none true) (.observe .rows)).2 = (.outside : Out Nat) := by decide
 
 end C04
